@@ -473,7 +473,7 @@ fn check_feed(c: &FeedCase, rec: &mut Rec) -> Result<(), String> {
 
 pub fn run_c25(ctx: &mut Ctx) {
     ctx.rule("cases = 1..15 updates of one custom price feed: price timestamp offset from the clock (incl. far past/future), price with min/max around it (valid, min > price, max < price), slot and clock deltas (incl. regressions), idempotent flag; oracle = model keeping the last accepted timestamp/slot/time: accepted iff clock and slot did not regress, timestamp not older than the last accepted one, not beyond clock + future excess, and min <= price <= max; idempotent and older => Ok(false) with unchanged bytes; any rejection leaves the bytes unchanged; stored timestamp never decreases; non-trivial = sequence contains an older update");
-    ctx.assume("PriceFeed::update driven through the `verif` hook with a stubbed clock; the chainlink instruction path is not part of this check");
+    ctx.assume("PriceFeed::update driven through the `verif` hook with a stubbed clock; the instruction path (update_price_feed_with_chainlink through the mock verifier CPI) is the search `feed_ix`");
     let n = ctx.cases(60_000, 3_000_000);
     ctx.search("feed", n, feed_case, check_feed);
     ctx.floor("feed:older_update_strict", 2_000);
